@@ -62,6 +62,7 @@ type Contract struct {
 	Trusted    bool
 	Covers     []clause
 	Cases      []caseSpec
+	Shared     bool
 
 	obj     *types.Func
 	harness *ssa.Function
@@ -113,7 +114,6 @@ func parseContractFile(path string, pkgPath string) ([]*Contract, []string, erro
 		}
 		if m := reHead.FindStringSubmatch(body); m != nil {
 			cur = &Contract{Kind: m[1], Name: strings.TrimSpace(m[2]), PkgPath: pkgPath, File: path, Line: i + 1, Loops: map[int]*loopSpec{}}
-			cur.ID = sanitize(filepath.Base(pkgPath) + "_" + cur.Name)
 			out = append(out, cur)
 			cur.Text = append(cur.Text, body)
 			continue
@@ -196,7 +196,26 @@ func parseContractFile(path string, pkgPath string) ([]*Contract, []string, erro
 			return nil, nil, fmt.Errorf("%s:%d: unknown clause %q", path, i+1, kw)
 		}
 	}
-	return out, imports, nil
+	// a head may list several functions sharing the clauses
+	var expanded []*Contract
+	for _, c := range out {
+		names := splitTop(c.Name, ",")
+		for _, n := range names {
+			cc := *c
+			cc.Name = strings.TrimSpace(n)
+			cc.Shared = len(names) > 1
+			cc.ID = sanitize(filepath.Base(pkgPath) + "_" + cc.Name)
+			cc.Loops = map[int]*loopSpec{}
+			for k, ls := range c.Loops {
+				cp := *ls
+				cp.paramsOf = map[string][]string{}
+				cp.invFns, cp.invSSA = nil, nil
+				cc.Loops[k] = &cp
+			}
+			expanded = append(expanded, &cc)
+		}
+	}
+	return expanded, imports, nil
 }
 
 // ---------------------------------------------------------------------------
@@ -430,10 +449,28 @@ func resolveFunc(pkg *types.Package, name string) (*types.Func, error) {
 // loopStmts returns the loop statements of a function body in source order.
 func loopStmts(body *ast.BlockStmt) []ast.Stmt {
 	var out []ast.Stmt
+	// labels that are the target of a backward goto form loops too
+	gotoFrom := map[string]token.Pos{}
 	ast.Inspect(body, func(n ast.Node) bool {
-		switch n.(type) {
+		if b, ok := n.(*ast.BranchStmt); ok && b.Tok == token.GOTO && b.Label != nil {
+			if p, ok := gotoFrom[b.Label.Name]; !ok || b.Pos() > p {
+				gotoFrom[b.Label.Name] = b.Pos()
+			}
+		}
+		return true
+	})
+	ast.Inspect(body, func(n ast.Node) bool {
+		switch v := n.(type) {
 		case *ast.ForStmt, *ast.RangeStmt:
 			out = append(out, n.(ast.Stmt))
+		case *ast.LabeledStmt:
+			if p, ok := gotoFrom[v.Label.Name]; ok && p > v.Pos() {
+				switch v.Stmt.(type) {
+				case *ast.ForStmt, *ast.RangeStmt:
+				default:
+					out = append(out, v)
+				}
+			}
 		case *ast.FuncLit:
 			return false
 		}
@@ -684,6 +721,10 @@ func genContract(g *genCtx, c *Contract, out *strings.Builder) error {
 		// rename map from contract param names to real names
 		for n, ls := range c.Loops {
 			if n >= len(loops) {
+				if c.Shared {
+					delete(c.Loops, n) // shared head: the clause applies where the loop exists
+					continue
+				}
 				return fmt.Errorf("loop %d does not exist (function has %d loops)", n, len(loops))
 			}
 			var pos token.Pos
@@ -695,20 +736,49 @@ func genContract(g *genCtx, c *Contract, out *strings.Builder) error {
 			case *ast.RangeStmt:
 				pos = l.Body.Lbrace
 				sc = pkg.TypesInfo.Scopes[l]
+			case *ast.LabeledStmt:
+				pos = l.Stmt.Pos()
+				sc = pkg.Types.Scope().Innermost(pos)
 			}
 			if sc == nil {
 				return fmt.Errorf("no scope for loop %d", n)
 			}
 			gen := func(kind string, k int, expr string, retType string) (string, error) {
-				e := prep(expr, nil)
+				var olds []string
+				e := prep(expr, &olds)
 				names, typs, err := freeLocals(pkg, e, sc, pos)
 				if err != nil {
 					return "", err
 				}
+				// old(p) in a loop clause: the entry value of parameter p
+				for i, o := range olds {
+					o = strings.TrimSpace(o)
+					var pt types.Type
+					for j := 0; j < sig.Params().Len(); j++ {
+						if sig.Params().At(j).Name() == o {
+							pt = sig.Params().At(j).Type()
+						}
+					}
+					if sig.Recv() != nil && sig.Recv().Name() == o {
+						pt = sig.Recv().Type()
+					}
+					if pt == nil {
+						return "", fmt.Errorf("old(%s) in a loop clause must name a parameter", o)
+					}
+					names = append(names, "old:"+o)
+					typs = append(typs, pt)
+					_ = i
+				}
 				fn := fmt.Sprintf("verif_%s_%s_%d_%d", kind, c.ID, n, k)
 				var ps []string
+				nold := 0
 				for i := range names {
-					ps = append(ps, names[i]+" "+g.typeStr(typs[i]))
+					pn := names[i]
+					if strings.HasPrefix(pn, "old:") {
+						pn = fmt.Sprintf("old_%d", nold)
+						nold++
+					}
+					ps = append(ps, pn+" "+g.typeStr(typs[i]))
 				}
 				fmt.Fprintf(out, "func %s(%s) %s { return %s }\n\n", fn, strings.Join(ps, ", "), retType, e)
 				ls.paramsOf[fn] = names
